@@ -59,7 +59,7 @@ def apply_junk(data, junk):
         r = random.Random(junk["seed"])
         return bytes(r.randrange(256) for _ in range(junk["n"]))
     if k == "foreign":
-        return junk["text"].encode()
+        return bytes.fromhex(junk["raw_hex"]) if junk.get("raw_hex") else junk["text"].encode()
     raise ValueError(k)
 
 
@@ -107,6 +107,12 @@ def gen_junk(rng, data, offsets=None, kinds=None, fields=None):
         return {"kind": "lost"}
     if k == "garbage":
         return {"kind": "garbage", "n": rng.choice([1, 7, 48, 71, 72, 100, 300]), "seed": rng.randrange(1 << 30)}
+    if rng.random() < 0.4:
+        # files of other formats that end up in the directory: recognisable magic numbers, then anything
+        magic = rng.choice(["1f8b", "1f8b0800", "504b0304", "425a68", "fd377a585a00", "7f454c46", "efbbbf", "2321", "5048"])
+        import random as _r
+        tail = bytes(_r.Random(rng.randrange(1 << 30)).randrange(256) for _ in range(rng.choice([0, 6, 40, 200])))
+        return {"kind": "foreign", "text": "", "raw_hex": magic + tail.hex()}
     return {"kind": "foreign", "text": rng.choice(['{\n    "Private Header": {}\n}\n', "PEL not found\n", "PH", "PHXX" * 30,
                                                    "#!/bin/sh\necho hi\n"])}
 
@@ -154,7 +160,7 @@ REFCODE_POOL = ["BD8D1234", "BD8D1235", "BD8D5678", "BD201234", "BDE51234", "BC8
 
 
 def gen_store(rng, n, *, style=None, ext=None, id_magnitude=None, refpool=None, with_src=None, max_sections=5,
-              classes=None, ud_targets=None, dup_plid=0.3):
+              classes=None, ud_targets=None, dup_plid=0.3, links=0):
     """n well-formed PELs with distinct entry ids; file names are unambiguous:
     no name contains the 8-digit entry id of another file."""
     style = style or rng.choice(["bmc", "bmc", "plain", "mixed", "numeric"])
@@ -186,7 +192,7 @@ def gen_store(rng, n, *, style=None, ext=None, id_magnitude=None, refpool=None, 
     else:
         style = "plain"
         names = make_names(rng, recipes, "plain", ext)
-    return [{"name": nm, "recipe": r} for nm, r in zip(names, recipes)]
+    return [dict({"name": nm, "recipe": r}, **({"link": True} if links and rng.random() < links else {})) for nm, r in zip(names, recipes)]
 
 
 def gen_registry(rng, recipes):
@@ -223,7 +229,13 @@ def gen_registry(rng, recipes):
 def put_store(w, d, files):
     w.mkdir(d)
     for f in files:
-        w.put(d + "/" + f["name"], f["data"] if "data" in f else file_data(f))
+        data = f["data"] if "data" in f else file_data(f)
+        if f.get("link"):
+            # the directory entry is a symbolic link to the PEL stored elsewhere (e.g. an archive)
+            w.put("T-%s/%s" % (d.replace("/", "_"), f["name"]), data)
+            w.symlink(d + "/" + f["name"], "T-%s/%s" % (d.replace("/", "_"), f["name"]))
+        else:
+            w.put(d + "/" + f["name"], data)
 
 
 def file_data(f):
